@@ -51,6 +51,9 @@ def ref_glob(model, pp, o):
     segs = norm_segments(pp, o)
     undecided = False
     implicit = (o.extmatchbase and not pp.absolute) or (o.matchbase and not pp.absolute and len(pp.segs) == 1 and not pp.trail)
+    if o.matchbase and not pp.absolute and not pp.trail and len(pp.segs) > 1 and len(segs) == 1 and segs[0][0] == 'gs':
+        # `***/**/***`: glob merges the run into one part and then treats the pattern as separator-free (K17 zone)
+        implicit = True
     if implicit:
         if segs[0][0] == 'gs':
             undecided = True
